@@ -150,7 +150,8 @@ fn engine_case(r: &mut Rng, dist: &mut Hist) -> Option<(String, String, Option<S
     } else {
         None
     };
-    let body: String = (0..(1 + r.below(3))).map(|_| *r.pick(&['a', 'b', 'c', 'x', '中'])).collect();
+    // sometimes no body at all: the anchor-only terms ^ $ ' ! and the empty term
+    let body: String = if r.chance(1, 5) { String::new() } else { (0..(1 + r.below(3))).map(|_| *r.pick(&['a', 'b', 'c', 'x', '中'])).collect() };
     let kind = r.below(6);
     let term = match kind {
         0 => body.clone(),
